@@ -156,6 +156,14 @@ pub fn eval(case: &Case, st: &mut Stats) -> Result<(), String> {
         Ok(h) => ensure_eq!(h.to_string(), format_hash(r.log, &r.bh1, &r.bh2_trunc), "hash_buf()"),
         Err(e) => return Err(format!("hash_buf() returned {:?}", e)),
     }
+    // ... and through the reader-based function with short reads
+    let sizes = [(data.len() as u16 % 13) + 1, 7, 4096, 1, 300];
+    let mut rd = crate::checks::c03::ChunkReader { data: &data, pos: 0, sizes: &sizes, k: 0 };
+    let hs = must("hash_stream", || ssdeep::hash_stream(&mut rd))?;
+    match hs {
+        Ok(h) => ensure_eq!(h.to_string(), format_hash(r.log, &r.bh1, &r.bh2_trunc), "hash_stream() with short reads"),
+        Err(e) => return Err(format!("hash_stream() failed: {}", e)),
+    }
     Ok(())
 }
 
